@@ -203,6 +203,32 @@ def gen(repo):
     if len(h) != 1 or ast.unparse(h[0].type) != 'TypeError':
         raise TranslationError('IntColumn.__eq__: handler')
     expect_same(h[0].body[0], 'return self._compare_value(0, lambda x, y: np.zeros(len(self._datamatrix)))')
+    # selection by row id (Model.SplitGroup.m_selectrowid / m_getrowidkey): the whole bodies are pinned, every part of
+    # split and every group of group is fetched through them
+    dmm = load(repo, 'datamatrix/_datamatrix/_datamatrix.py')
+
+    def pin_body(mod, qual, want):
+        b = strip_docstrings(find_function(mod, qual))
+        if len(b) != len(want):
+            raise TranslationError('%s: %d statements, expected %d' % (qual, len(b), len(want)))
+        for st_, src in zip(b, want):
+            expect_same(st_, src, qual)
+
+    pin_body(dmm, 'DataMatrix._selectrowid',
+             ['dm = DataMatrix(len(_rowid))', "object.__setattr__(dm, u'_rowid', _rowid)",
+              "object.__setattr__(dm, u'_id', self._id)",
+              'for name, col in self._cols.items():\n'
+              '    dm._cols[name] = self._cols[name]._getrowidkey(_rowid)\n'
+              '    dm._cols[name]._datamatrix = dm',
+              'return dm'])
+    pin_body(base, 'BaseColumn._getrowidkey',
+             ['col = self._empty_col()', 'col._rowid = key',
+              'col._seq = [self._seq[self._rowid.index(_rowid)] for _rowid in key]', 'return col'])
+    pin_body(num, 'NumericColumn._getrowidkey',
+             ['col = self._empty_col()', 'orig_indices = self._rowid_argsort()',
+              'matching_indices = np.searchsorted(self._rowid[orig_indices], key)',
+              'selected_indices = orig_indices[matching_indices]',
+              'col._rowid = self._rowid[selected_indices]', 'col._seq = self._seq[selected_indices]', 'return col'])
     # the unique properties
     fn = find_function(base, 'BaseColumn.unique')
     expect_same(strip_docstrings(fn)[0], 'return list(safe_sorted(set(self._seq)))', 'BaseColumn.unique')
